@@ -63,7 +63,10 @@ def make_request(rng: random.Random, case: Dict[str, Any], hp: bytes) -> G.Msg:
         body = b''
     elif framing != 'none':
         body = G.body_bytes(rng, max(1, size))
-    m = G.gen_request(rng, target=b'http://' + hp + path, host_header=hp, framing=framing, body=body,
+    # method tokens are case-sensitive: 'get', 'Purge', 'm-search' are valid, distinct from their upper-case spellings, and
+    # are forwarded as sent
+    odd = rng.choice([b'get', b'Purge', b'Report', b'm-search', b'pOST', b'Put', b'mkCol']) if rng.random() < 0.08 else None
+    m = G.gen_request(rng, target=b'http://' + hp + path, host_header=hp, framing=framing, body=body, method=odd,
                       more_headers=more, ext=(fr == 'chunked-ext'), trailers=(fr == 'chunked-trailers'),
                       version=b'HTTP/1.1' if rng.random() < 0.9 else b'HTTP/1.0' if framing != 'chunked' else b'HTTP/1.1')
     m.path = path      # type: ignore[attr-defined]
